@@ -482,7 +482,9 @@ func runLCase(c LCase) *lOutcome {
 					// success with a valid lease must have taken effect
 					a, inA := after[e.holder.ID]
 					if class != "extend" && inA && a.State == "leased" {
-						out.Failure = lfail("success-without-effect", i, "%s: answered success with a valid lease but the message is still leased", desc)
+						f := lfail("success-without-effect", i, "%s: answered success with a valid lease but the message is still leased", desc)
+						f.Prop = "C04,C01" // an ack / nack acknowledged to the consumer that never happened
+						out.Failure = f
 						return out
 					}
 					if class == "extend" {
@@ -588,8 +590,34 @@ func TestProp_C04_Transport(t *testing.T) {
 	})
 }
 
+// TestProp_C01_AckFault: the same histories for C01's share - a settle call that was answered
+// as done must be done (also when the store failed on the way and the consumer retried).
+func TestProp_C01_AckFault(t *testing.T) {
+	gen := genLCase()
+	rapid.Check(t, func(rt *rapid.T) {
+		c := gen.Draw(rt, "case")
+		// every second lease call of the case meets a store fault
+		for i := range c.Ops {
+			if k := c.Ops[i].K; (k == "ack" || k == "nack") && i%2 == 0 && c.Ops[i].Fault == 0 {
+				c.Ops[i].Fault = 1
+			}
+		}
+		out := runLCase(c)
+		if f := out.Failure; f != nil && f.Prop != "HARNESS" && !strings.Contains(f.Prop, "C01") {
+			out.Failure = nil
+			out.Labels["foreign-clause"] = true
+		}
+		out.NonTriv = out.Labels["store-fault"]
+		verifkit.Emit(verifkit.Record{Prop: "C01", Test: "TestProp_C01_AckFault", Hash: verifkit.Hash(c), NonTrivial: out.NonTriv, Labels: out.labelList()}, c)
+		if out.Failure != nil {
+			verifkit.SaveFailing("TestProp_C01_AckFault", c, out.Failure)
+			rt.Fatalf("%v", out.Failure)
+		}
+	})
+}
+
 func TestReplay_Lease(t *testing.T) {
-	for _, rf := range verifkit.ReplayFiles("TestProp_C04_Transport") {
+	for _, rf := range append(verifkit.ReplayFiles("TestProp_C04_Transport"), verifkit.ReplayFiles("TestProp_C01_AckFault")...) {
 		var c LCase
 		if err := json.Unmarshal(rf.Case, &c); err != nil {
 			fmt.Printf("REPLAY-ERROR file=%s err=%v\n", rf.Path, err)
